@@ -303,6 +303,14 @@ func gen1(t *rapid.T) Case {
 		c.Msg.Extra = 4
 	case 3, 4:
 		c.Msg.Extra = rapid.IntRange(1, 40).Draw(t, "extra")
+		if rapid.IntRange(0, 3).Draw(t, "longExtra") == 2 { // payload lengths around 256, 512, 768 and the 1023 limit
+			need := 19
+			if b.WithH {
+				need = 21
+			}
+			total := rapid.SampledFrom([]int{255, 256, 257, 300, 511, 512, 513, 767, 768, 769, 1022, 1023}).Draw(t, "payloadLen")
+			c.Msg.Extra = total - need
+		}
 		c.Msg.ExtraFill = rapid.Byte().Draw(t, "extraFill")
 	}
 	return c
